@@ -71,6 +71,9 @@ func emitLocate(e *Emitter, stride int, p geom.Coord, ring []float64) {
 			if math.Abs(ring[i]) >= 1<<40 || math.Abs(ring[i+1]) >= 1<<40 {
 				ok = false
 			}
+			if (ring[i] != 0 && math.Abs(ring[i]) < 1) || (ring[i+1] != 0 && math.Abs(ring[i+1]) < 1) {
+				ok = false // (already at a small scale: scaling further would round)
+			}
 		}
 		if ok && math.Abs(p[0]) < 1<<40 && math.Abs(p[1]) < 1<<40 {
 			ring = append([]float64{}, ring...)
@@ -223,6 +226,35 @@ func genC11(r *Rng, e *Emitter, n int) {
 			p = append(p, r.anyBits())
 		}
 		e.tally("op=locate-unimodular")
+		emitLocate(e, stride, p, ring)
+	}
+	// rings whose x ordinates are signed powers of two between 2^-60 and 2^60 (or zero) and whose y
+	// ordinates are small whole numbers, seen from the origin: every difference, quotient and product
+	// of the determinant routine is exact, and its quotients reach 2^120
+	for i := 0; i < n/10+8; i++ {
+		nv := 3 + r.Intn(4)
+		stride := 2 + r.Intn(3)
+		ring := make([]float64, 0, (nv+1)*stride)
+		for k := 0; k < nv; k++ {
+			x := math.Ldexp(float64(1-2*r.Intn(2)), r.Intn(121)-60)
+			if r.chance(1, 8) {
+				x = 0
+			}
+			y := float64(r.Intn(7) - 3)
+			ring = append(ring, x, y)
+			for o := 2; o < stride; o++ {
+				ring = append(ring, r.anyBits())
+			}
+		}
+		ring = append(ring, ring[:stride]...)
+		p := geom.Coord{0, 0}
+		if r.chance(1, 4) {
+			p[1] = float64(r.Intn(5) - 2)
+		}
+		for o := 2; o < stride; o++ {
+			p = append(p, r.anyBits())
+		}
+		e.tally("op=locate-power-of-two-abscissae")
 		emitLocate(e, stride, p, ring)
 	}
 	grids := []int{4, 6, 8, 16, 1 << 26}
